@@ -64,3 +64,26 @@ F4 = [
   "cutting a cell out of a CSE array formula returns Err (it would split the array) after the paste target has already received the source cell's style", [], True),
 ]
 register("C04", "random-prefix", F4)
+
+cfop = {"CfAdd": {"s":0,"range":"A1:A1","rule":cf}}
+F3 = [
+ ("cf-dxf-not-sent", {"profile":"Full","prefix":[],"ops":[cfop],"flush_every_step":False},
+  "add_conditional_formatting queues a diff that carries the dxf index allocated in the origin's style pool; the replica's pool does not have it, so the rule has no format there", [], False),
+ ("cf-update-dxf-not-sent", {"profile":"Full","prefix":[cfop],"ops":[{"CfUpdate": {"s":0,"idx":0,"range":"A1:A1","rule":cf}}],"flush_every_step":False},
+  "update_conditional_formatting: same dxf-index defect as add_conditional_formatting", [], False),
+]
+register("C03", "replica", F3)
+
+def arrf(r,c,w,h,t,s=0): return {"ArrayFormula": {"s":s,"row":r,"col":c,"w":w,"h":h,"text":t}}
+cff = {"type":"Formula","formula":"$A1>2","stop_if_true":True,"format":{"font":{"b":False},"fill":{"color":"#FF0000"},"border":None,"num_fmt":None,"alignment":None}}
+F26 = [
+ ("english-function-name-in-es", case([inp(1,1,"=IF(B1>0,B1,\"neg\")")], language="es"),
+  "a formula typed with English function names while the display language is Spanish is stored so that it shows #NAME? now but resolves to the Spanish function after save/load", [], False),
+ ("ref-error-literal-in-de", case([inp(6,1,"=-A3%"), {"DeleteRows": {"s":0,"row":1,"n":3}}], language="de"),
+  "after deleting referenced rows in a non-English language the formula evaluates to #ERROR! in memory but to #REF! after save/load", [], False),
+ ("cse-array-reads-own-range", case([arrf(9,2,2,1,"=A1&\"-\"&C9")]),
+  "a CSE array formula that reads a cell of its own range has a history-dependent value instead of #CIRC!; reload computes a different value", [], False),
+ ("cut-paste-part-of-cse-array", case([arrf(5,3,2,1,"=SUM(Sheet1!A1:A1)"), {"CopyPaste": {"src": A(0,5,3,1,1), "ts":0,"trow":1,"tcol":2,"cut":True}}]),
+  "cut/paste of the anchor of a CSE array leaves the pasted cell unevaluated (#ERROR! shown); reload evaluates it", [], False),
+]
+register("C26", "states", F26)
